@@ -145,3 +145,34 @@ mutant('C12-R3-data-size-guard-dropped', ['C12'], ['C12.R3|data'],
 mutant('C12-R4-frame-size-error-code', ['C12'], ['C12.R4|map_err'],
        'an over-long received frame is reported as PROTOCOL_ERROR instead of FRAME_SIZE_ERROR',
        [('src/codec/framed_read.rs', 'return Error::library_go_away(Reason::FRAME_SIZE_ERROR);', 'return Error::library_go_away(Reason::PROTOCOL_ERROR);')])
+
+# ---------------------------------------------------------------- C08
+mutant('C08-R1-pong-slot-not-cleared', ['C08'], ['C08.R1|drain|pending_pong'],
+       'send_pending_pong reads the slot without taking it: the next PING trips assert!(pending_pong.is_none())',
+       [('src/proto/ping_pong.rs', 'if let Some(pong) = self.pending_pong.take() {', 'if let Some(pong) = self.pending_pong.clone() {')])
+mutant('C08-R1-poll-ready-skips-refusal', ['C08'], ['C08.R1|poll_ready'],
+       'Connection::poll_ready no longer drains the pending refusal before the next frame is read',
+       [('src/proto/connection.rs', '''        ready!(self.inner.streams.send_pending_refusal(cx, &mut self.codec))?;
+
+        Poll::Ready(Ok(()))''', '''        Poll::Ready(Ok(()))''')])
+mutant('C08-R1-poll-ready-ignores-pending', ['C08'], ['C08.R1|poll_ready|result-used|send_pending_pong'],
+       'Connection::poll_ready ignores the Pending outcome of send_pending_pong',
+       [('src/proto/connection.rs', 'ready!(self.inner.ping_pong.send_pending_pong(cx, &mut self.codec))?;',
+         'let _ = self.inner.ping_pong.send_pending_pong(cx, &mut self.codec);')])
+mutant('C08-R2-refusal-without-capacity-check', ['C08'], ['C08.R2|site|proto::streams::recv::Recv::send_pending_refusal'],
+       'send_pending_refusal buffers RST_STREAM without has_send_capacity',
+       [(S + 'recv.rs', '''        if let Some(stream_id) = self.refused {
+            if !dst.has_send_capacity() {
+                return Ok(BufferStatus::CodecFull);
+            }
+''', '''        if let Some(stream_id) = self.refused {
+''')])
+mutant('C08-R4-zero-write-busy-loop', ['C08'], ['C08.R4|flush|zero-write'],
+       'FramedWrite::flush retries forever when the transport returns Ok(0) (0.4.16 fix reverted)',
+       [('src/codec/framed_write.rs', '''                if n == 0 {
+                    // No progress is possible; retrying would busy-loop.
+                    tracing::trace!("write returned zero, but non-zero bytes remaining");
+                    return Poll::Ready(Err(io::ErrorKind::WriteZero.into()));
+                }
+''', '''                let _ = n;
+''')])
